@@ -113,6 +113,34 @@ def generate(rng, tier):
         y = rng.randint(-(c - abs(x)), c - abs(x))
         z = (c - abs(x) - abs(y)) * rng.choice([1, -1])
         cases.append(Case(f"octa_tool {q} intvec {x} {y} {z}", tags=("intvec_random",)))
+    # histories: ONE AttributeOctahedronTransform object re-parameterised between uses must behave like a fresh one
+    # (the property holds for every q, also on an object that served another q before)
+    for _ in range(300 if tier == "thorough" else 60):
+        qs = [rng.choice([2, 3, 5, 8, 10, 12, 16, 24, 30]) for _ in range(rng.choice([2, 2, 3]))]
+        vecs = [rand_vec(rng) for _ in range(rng.choice([1, 4, 12]))]
+        vecs = [v for v in vecs if not all(x == 0 for x in v)] or [[1.0, 2.0, 3.0]]
+        flat = ",".join(str(f32_bits(x)) for v in vecs for x in v)
+
+        def hist_oracle(hout, case, qs=qs, vecs=vecs):
+            if " || " not in hout:
+                return ("octa-fail", f"`{case.op[:200]}` -> {hout[:100]}")
+            hist, fresh = hout.split(" || ")
+            last = hist.split(" | ")[-1]
+            if last != fresh:
+                return ("octa-transform-reuse", f"a reused AttributeOctahedronTransform (q history {qs}) gives `{last[:120]}` where a fresh one gives `{fresh[:120]}` for `{case.op[:200]}`")
+            # the property itself on every use of the reused object
+            for q, part in zip(qs, hist.split(" | ")):
+                f = part.split()
+                if len(f) != 2:
+                    return ("octa-fail", f"`{case.op[:200]}` -> {part[:100]}")
+                st = [int(x) for x in f[0].split(",")]
+                dec = [int(x) for x in f[1].split(",")]
+                for i, v in enumerate(vecs):
+                    r = oracle(q, v)(f"{st[2 * i]} {st[2 * i + 1]} {dec[3 * i]} {dec[3 * i + 1]} {dec[3 * i + 2]}", case)
+                    if r:
+                        return (r[0], "reused transform object: " + r[1])
+            return None
+        cases.append(Case(f"oattr_hist {','.join(map(str, qs))} {flat}", model=False, oracle=hist_oracle, tags=("transform_object_history",)))
     # end to end: normals through the codecs (sequential, Edgebreaker with delta / geometric-normal prediction),
     # checked by the executable specification RoundTripOK (decoded == octahedral decode(encode(original)))
     for _ in range(400 if tier == "thorough" else 80):
